@@ -132,7 +132,11 @@ def spanOf (bs : List Blk) : Option (Nat × Nat) :=
   | some a, some b => some (a, b)
   | _, _ => none
 
-/-- What was exported, in CHROMOSOME coordinates, and the origin `off` of the coordinate system the record
+/-- The domain of the property: intervals whose blocks all have bases (non-empty), ascending and non-overlapping —
+    `Driver/SpecBed.lean` answers `n/a` otherwise.  (A zero-length block is not an exon; the library itself treats it
+    inconsistently: chromosome-mode export writes it, chunk-relative export on a chunk parent drops it.)
+
+    What was exported, in CHROMOSOME coordinates, and the origin `off` of the coordinate system the record
     is to be written in (`0` for chromosome mode, the chunk's chromosome start for chunk-relative mode). -/
 structure Want where
   exons : List Blk
